@@ -34,8 +34,9 @@ class Instance:
                  expect='hold', max_decisions=20000, witness_every=1,
                  note='', max_paths=200000, conc_timeout_s=10,
                  solver_timeout_ms=120000, max_violations=25,
-                 explode_limit=3000, n_samples=96):
+                 explode_limit=3000, n_samples=96, dump_queries=1):
         self.name = name
+        self.dump_queries = dump_queries
         self.max_violations = max_violations
         self.explode_limit = explode_limit
         self.n_samples = n_samples
@@ -251,6 +252,47 @@ def _explore_once(mod, modname, inst, seed, W, res, t0):
             res['inconclusive'].append('replay %s: %s' % (c['outcome'],
                                                           c['detail'][:300]))
 
+    def second_solvers(text):
+        """re-decide an exported 'PC and not ok' query with two other
+        solvers: the system z3 4.8.12 binary and cvc5 1.0.3.  Both must not
+        answer 'sat'; an '(error' line or a timeout counts as no answer."""
+        import tempfile
+        ss = res.setdefault('second_solver', {
+            'queries': 0, 'z3-4.8.12': {}, 'cvc5-1.0.3': {}})
+        ss['queries'] += 1
+        with tempfile.NamedTemporaryFile('w', suffix='.smt2',
+                                         delete=False) as f:
+            f.write('(set-logic ALL)\n' + text)
+            path = f.name
+        try:
+            for name, cmd in (('z3-4.8.12', ['/usr/bin/z3', '-T:20', path]),
+                              ('cvc5-1.0.3', ['cvc5', '--tlimit=20000',
+                                              path])):
+                try:
+                    out = subprocess.run(cmd, capture_output=True, text=True,
+                                         timeout=40).stdout
+                except Exception:
+                    out = 'timeout'
+                lines = [ln.strip() for ln in out.splitlines()]
+                if any(ln.startswith('(error') for ln in lines):
+                    ans = 'error'
+                elif 'unsat' in lines:
+                    ans = 'unsat'
+                elif 'sat' in lines:
+                    ans = 'sat'
+                else:
+                    ans = 'no-answer'
+                ss[name][ans] = ss[name].get(ans, 0) + 1
+                if ans == 'sat':
+                    res['inconclusive'].append(
+                        'second solver %s answers sat where z3 5.1 answered '
+                        'unsat' % name)
+        finally:
+            try:
+                os.remove(path)
+            except OSError:
+                pass
+
     def fallback_samples(ctx, pres, n=60):
         import random
         rng = random.Random(seed * 1009 + 7)
@@ -291,6 +333,8 @@ def _explore_once(mod, modname, inst, seed, W, res, t0):
                 res['assertions_reached'] += 1
             if p['verdict'] == 'unsat':
                 res['held'] += 1
+                if p.get('smt2'):
+                    second_solvers(p['smt2'])
                 if p['witness'] is not None and \
                         i % max(1, inst['witness_every']) == 0:
                     c = conc(p['witness'])
@@ -336,7 +380,8 @@ def _explore_once(mod, modname, inst, seed, W, res, t0):
                            on_path=on_path, max_paths=inst['max_paths'],
                            solver_timeout_ms=inst['solver_timeout_ms'],
                            explode_limit=inst.get('explode_limit', 3000),
-                           n_samples=inst.get('n_samples', 96))
+                           n_samples=inst.get('n_samples', 96),
+                           dump_queries=inst.get('dump_queries', 1))
     finally:
         shadow_log = sorted(set(sh.log))
         sh.restore()
@@ -500,29 +545,52 @@ def main(argv=None):
         # ProcessPoolExecutor (unlike multiprocessing.Pool) notices a worker
         # that died (OOM, signal): the affected instances become inconclusive
         # instead of the run hanging forever
-        with cf.ProcessPoolExecutor(nproc, mp_context=mpctx,
-                                    initializer=_worker_init,
-                                    max_tasks_per_child=8) as ex:
+        # (no max_tasks_per_child: CPython 3.12.1's executor can deadlock
+        # when workers are recycled - bpo gh-115634)
+        ex = cf.ProcessPoolExecutor(nproc, mp_context=mpctx,
+                                    initializer=_worker_init)
+        try:
             futs = {ex.submit(_pool_run_indexed, (k, jobs[k])): k
                     for k in order}
-            for fut in cf.as_completed(futs):
-                k = futs[fut]
-                try:
-                    _k, r = fut.result()
-                except Exception as e:       # BrokenProcessPool etc.
-                    r = _dead_result(jobs[k][1], 'worker process died: %r'
-                                     % (e,))
-                tmp[k] = r
-                if os.environ.get('SYMX_PROGRESS'):
-                    sys.stderr.write('[done %d/%d] %s paths=%d wall=%.1fs '
-                                     'viol=%d inconcl=%d\n' % (
-                                         len(tmp), len(jobs), r['name'],
-                                         r['paths'], r['wall_s'],
-                                         len(r['violations']),
-                                         len(r['inconclusive'])))
-                    sys.stderr.flush()
+            pending = set(futs)
+            while pending:
+                done, pending = cf.wait(pending, timeout=60,
+                                        return_when=cf.FIRST_COMPLETED)
+                if not done:
+                    # liveness watchdog: pending work but no worker alive
+                    procs = list(getattr(ex, '_processes', {}).values())
+                    if not any(p.is_alive() for p in procs):
+                        for fut in pending:
+                            tmp[futs[fut]] = _dead_result(
+                                jobs[futs[fut]][1],
+                                'all worker processes died')
+                        pending = set()
+                    continue
+                for fut in done:
+                    k = futs[fut]
+                    try:
+                        _k, r = fut.result()
+                    except Exception as e:       # BrokenProcessPool etc.
+                        r = _dead_result(jobs[k][1],
+                                         'worker process died: %r' % (e,))
+                    tmp[k] = r
+                    _progress(tmp, jobs, r)
+        finally:
+            ex.shutdown(wait=False, cancel_futures=True)
         results = [tmp[k] for k in range(len(jobs))]
     return report(pid, tier, seed, mod, results, t0)
+
+
+def _progress(tmp, jobs, r):
+    if os.environ.get('SYMX_PROGRESS'):
+        sys.stderr.write('[done %d/%d] %s paths=%d wall=%.1fs '
+                         'viol=%d inconcl=%d\n' % (
+                             len(tmp), len(jobs), r['name'],
+                             r['paths'], r['wall_s'],
+                             len(r['violations']),
+                             len(r['inconclusive'])))
+        sys.stderr.flush()
+
 
 
 def report(pid, tier, seed, mod, results, t0):
@@ -651,6 +719,22 @@ def write_replay(pid, modname, v):
     return rp
 
 
+def _merge_second(results):
+    tot = {'queries': 0, 'z3-4.8.12': {}, 'cvc5-1.0.3': {},
+           'note': 'per instance the first discharged property query is '
+                   'exported (SMT-LIB2) and re-decided by two other solvers; '
+                   "'sat' from either makes the run inconclusive"}
+    for r in results:
+        ss = r.get('second_solver')
+        if not ss:
+            continue
+        tot['queries'] += ss['queries']
+        for k in ('z3-4.8.12', 'cvc5-1.0.3'):
+            for a, n in ss[k].items():
+                tot[k][a] = tot[k].get(a, 0) + n
+    return tot
+
+
 def write_evidence(pid, tier, seed, mod, results, confirmed, known_hit,
                    inconclusive, wall, reported=()):
     main_r = [r for r in results if r['expect'] == 'hold']
@@ -697,6 +781,7 @@ def write_evidence(pid, tier, seed, mod, results, confirmed, known_hit,
         'sentinel_selftests': [{
             'name': r['name'], 'caught': bool(r['violations']),
             'paths': r['paths'], 'note': r['note']} for r in sent],
+        'second_solver': _merge_second(results),
         'functions_encoded': funcs,
         'shadowed_names': shadows,
         'queries': queries,
